@@ -329,10 +329,72 @@ var ruleNameLoc = &Rule{
 			}
 		}
 		g := c.VTA()
+		// a look-ahead scans the next token but puts the now-token back (lookAheardToken: backNowToken := l.nowToken;
+		// l.NextTokenStruct(); l.nowToken = backNowToken): it does not change what GetNowTokenLoc answers
+		preserves := map[*ssa.Function]bool{}
+		for _, f := range c.ModFns() {
+			if f.Blocks == nil || mayStep[f] || f.Package() == nil || f.Package().Pkg.Path() != lexerPkg {
+				continue
+			}
+			var saved ssa.Value
+			for _, ins := range f.Blocks[0].Instrs {
+				if ld, ok := ins.(*ssa.UnOp); ok && ld.Op == token.MUL {
+					if fa, ok := ld.X.(*ssa.FieldAddr); ok && fieldName(fa.X.Type(), fa.Field) == "nowToken" {
+						saved = ld
+					}
+				}
+			}
+			if saved == nil {
+				// the save may sit behind an early-return test: look in every block that dominates a step call
+				for _, b := range f.Blocks {
+					for _, ins := range b.Instrs {
+						if ld, ok := ins.(*ssa.UnOp); ok && ld.Op == token.MUL {
+							if fa, ok := ld.X.(*ssa.FieldAddr); ok && fieldName(fa.X.Type(), fa.Field) == "nowToken" && saved == nil {
+								saved = ld
+							}
+						}
+					}
+				}
+			}
+			if saved == nil {
+				continue
+			}
+			isStep := func(i ssa.Instruction) bool {
+				call, ok := i.(*ssa.Call)
+				if !ok {
+					return false
+				}
+				sc := call.Call.StaticCallee()
+				return sc != nil && mayStep[sc]
+			}
+			isRestore := func(i ssa.Instruction) bool {
+				st, ok := i.(*ssa.Store)
+				if !ok || st.Val != saved {
+					return false
+				}
+				fa, ok := st.Addr.(*ssa.FieldAddr)
+				return ok && fieldName(fa.X.Type(), fa.Field) == "nowToken"
+			}
+			nStep := 0
+			savedFirst := true
+			for _, b := range f.Blocks {
+				for _, ins := range b.Instrs {
+					if isStep(ins) {
+						nStep++
+						if !(saved.(ssa.Instruction).Block() == b || saved.(ssa.Instruction).Block().Dominates(b)) {
+							savedFirst = false
+						}
+					}
+				}
+			}
+			if nStep > 0 && savedFirst && len(mustFollow(f, isStep, isRestore)) == 0 {
+				preserves[f] = true
+			}
+		}
 		for changed := true; changed; {
 			changed = false
 			for _, f := range c.ModFns() {
-				if mayStep[f] {
+				if mayStep[f] || preserves[f] {
 					continue
 				}
 				n := g.Nodes[f]
